@@ -202,7 +202,10 @@ def cell_job(cell):
             res2 = de.solve_ivp(f, span, y0, method=method, t_eval=cell["t_eval"], args=(args[1], args[0]), events=evs, **opts)
             sg_ = -1.0 if cell.get("backward") else 1.0
             ref = de.solve_ivp(lambda t_, y_: sg_ * (-args[0] * y_ * y_ + args[1] * np.cos(t_)), span, y0, method=method, t_eval=cell["t_eval"], events=evs, **opts)
-            out["argsBoundInOrder"] = bool(np.array_equal(np.asarray(ref.y), y) and not np.array_equal(np.asarray(res2.y), y))
+            # compared on the underlying systems' whole trajectories (with t_eval and a terminal event the result may hold the initial column only)
+            full, fref, fswap = np.asarray(sysm.y), np.asarray(ref.ode_system.y), np.asarray(res2.ode_system.y)
+            out["argsBoundInOrder"] = bool(np.array_equal(np.asarray(ref.y), y) and np.array_equal(fref, full)
+                                           and not (fswap.shape == full.shape and np.array_equal(fswap, full)))
         # scipy (exploration): end state at tight tolerance
         out["scipyTolUnits"] = -1
         out["solTolUnits"] = -1
